@@ -538,8 +538,24 @@ class TvarsStream(Stream):
 STREAMS = [TvarsStream()]
 
 META = {
-    "level_text": "filled below",
-    "level_note": "",
-    "technique": "",
+    "level_text": (
+        "Coq theorems over Model/PyLit.v: for every value of the modelled literal types (None, bool, int of any size, finite "
+        "float, str over all code points with any quotes/backslashes/control/non-printable characters, list/tuple/set/dict "
+        "nested to any depth) the literal_eval model applied to repr(value) returns the identical value (c37_roundtrip, full "
+        "proof incl. the quote-choice and \\x/\\u/\\U escape algorithm, by induction over the nested value); the restart "
+        "loader restores every stored variable and a variable given again on the command line wins and is not evaluated "
+        "(c37_restart_restores_and_cli_wins, c37_cli_precedence); without the finiteness restriction the round trip is REFUTED "
+        "(float inf -> 'inf' -> InputError, and the whole restart fails). The model is tied to the code by differential runs: "
+        "generated literals through the real load_template_vars -> put_workflow_template_vars -> sqlite -> "
+        "Scheduler.load_workflow_params_and_tmpl_vars/_load_template_vars (and get_template_vars_from_db); model repr = text "
+        "found in the DB, model parse = eval_var result, model restart = observed template_vars; mutated and hand-written "
+        "texts check that whenever the model parser accepts, eval_var returns that value."),
+    "level_note": (
+        "CPython's float repr/float() and str.isprintable are Section variables with hypothesis H_float, instantiated per case "
+        "from the interpreter; the parser model covers the canonical spelling only (None on other spellings claims nothing); "
+        "bytes, complex and Ellipsis values are outside the model (oracle only). Open findings: non-finite floats and Ellipsis "
+        "are accepted at first start but cannot be restored (known_findings.d/C37.json)."),
+    "technique": "Coq proof (print/parse round trip by nested induction, fuel = text length) + in-Coq differential "
+                 "correspondence on the real put/reload path + value-identity oracle",
     "design_ref": "5/C37",
 }
